@@ -2,6 +2,7 @@
 CONSTANTS
   UnsupportedRule = "rewrite"
   HeadRule = "pass"
+  StatusRule = "pass"
   CtRule = "caseinsensitive"
   ParseRule = "scripting"
   CspRule = "policylist"
